@@ -817,7 +817,24 @@ class Run:
                 if rn not in s._impl.own_refs:
                     continue
                 v = s._impl.own_refs[rn].interface
-                if not (isinstance(v, Interface) and v._is_valid() and isinstance(v, mx.core.cells.Cells)):
+                if isinstance(v, Interface) and not v._is_valid():
+                    # the reference holds a DELETED object: the formula is evaluated for real - it must raise
+                    # (a value would have been computed through an object that no longer exists)
+                    try:
+                        with quiet():
+                            got = s.cells[cn](1)
+                    except Exception:
+                        self.stats["formulas_on_deleted_object_raise"] = \
+                            self.stats.get("formulas_on_deleted_object_raise", 0) + 1
+                    else:
+                        self.fail("formula %s.%s reading reference %s, which holds a deleted object, returned %r" % (
+                            path, cn, rn, got), k)
+                    continue
+                if not (isinstance(v, Interface) and isinstance(v, mx.core.cells.Cells)):
+                    # the reference was rebound to something that is not a cells (a space, a plain value): what
+                    # `ref(1) + 1` means then is not C10's business, and calling a space would create an ItemSpace
+                    # (a change of the state the history is compared on) - not evaluated, counted
+                    self.stats["formulas_not_evaluated_noncells"] = self.stats.get("formulas_not_evaluated_noncells", 0) + 1
                     continue
                 try:
                     with quiet():
@@ -838,14 +855,35 @@ class Run:
         try:
             P = live.space(op[1])
         except Exception:
+            # the space was never created (an earlier op of the history was refused): spaces are addressed by
+            # name, there is no object to subscript
+            self.stats["item_no_such_space"] = self.stats.get("item_no_such_space", 0) + 1
             return
         child = op[2] if len(op) > 2 else None
         # the static base of the ItemSpace to be created
         try:
             base = P._impl if child is None else live.space(op[1] + "." + child)._impl
         except Exception:
+            self.stats["item_no_such_space"] = self.stats.get("item_no_such_space", 0) + 1
             return
-        if base.formula is None or P._impl.formula is None:
+        if P._impl.formula is None:
+            # not parametrised (the `params` op was refused): the subscript is made for real - it must raise
+            # and must not create anything
+            before = len(P._impl.param_spaces) if hasattr(P._impl, "param_spaces") else None
+            try:
+                with quiet():
+                    got = P[1]
+            except Exception:
+                self.stats["item_on_unparametrised_raises"] = self.stats.get("item_on_unparametrised_raises", 0) + 1
+            else:
+                self.fail("%s[1] on a space without parameters returned %r" % (op[1], got), k)
+            after = len(P._impl.param_spaces) if hasattr(P._impl, "param_spaces") else None
+            if before != after:
+                self.fail("%s[1] on a space without parameters changed its ItemSpaces" % op[1], k)
+            return
+        if base.formula is None:
+            # the nested ItemSpace of a child without parameters: `path[1].child[2]` has no base to compare with
+            self.stats["item_child_unparametrised"] = self.stats.get("item_child_unparametrised", 0) + 1
             return
         root = base.idstr
         # expectations from the static base tree, in the order of _init_dynbaserefs
